@@ -14,7 +14,8 @@ RULE = ("histories of real CLI invocations with hostile object ids ('..', '/', a
 IDS = [["a", "a/b", "../x", "a/../../y", "ok-id"], ["/abs/p", "b//c", "c/.", "b", "c"], ["obj", "obj/v1", "obj/v1/content/z", "obj/extensions/e"],
        ["obj", "obj/v1/content/a.txt/x", "obj/v1/content/d1", "obj/v2"], ["deep/er/id", "deep", "deep/er", "d/", ".."], ["x/../../../z", "x", "x/y", "ok-id"],
        ["p", "p/v1/content", "p/v1/content/sub/q", "p/inventory.json"],
-       ["../outside-empty/deep/obj", "../outside-empty/deep/a/b", "ok-id", "../outside-empty"]]
+       ["../outside-empty/deep/obj", "../outside-empty/deep/a/b", "ok-id", "../outside-empty"],
+       ["coll/item", "coll/item/part1", "coll/item/v1/x", "coll"], ["a/b/c", "a/b/c/d/e", "a/b", "a/b/c/v1/content/q"]]
 ROOTS = ["objects/a", "objects/a/b", "../out", "/abs/root", "o//p", "objects/./q", "objects", "x/../../y", "plain"]
 HISTORY_KW = dict(layouts=["0002-flat-direct-storage-layout", "0002-flat-direct-storage-layout", "none"], ids=IDS, hostile_roots=ROOTS,
                   weights=[30, 3, 3, 3, 3, 2, 1, 40, 4, 1])
